@@ -323,6 +323,12 @@ fn parse_cron_part(
                 return Err("Can't find end number of range".to_string());
             }
             let end = parse_value(end, cron_type)?;
+            if range_parts.next().is_some() {
+                return Err(format!(
+                    "A range has to consist of exactly one start and one end value: {}",
+                    part
+                ));
+            }
 
             if start > end {
                 return Err(
